@@ -365,6 +365,8 @@ func (e *Env) ident(name string) TV {
 			return TV{V: I64(-1), Signed: true}
 		case "rsb":
 			return TV{V: BVI(8, 0)}
+		case "alloc":
+			return TV{V: I64(0), Signed: true}
 		}
 		return TV{V: NilErr}
 	}
